@@ -80,7 +80,8 @@ func genCase(r *kit.Rand, i int, tier string) (chain, stop, class string, n int)
 	default:
 		class = "early"
 	}
-	if hasFail && class == "gated" {
+	if hasFail && (class == "gated" || class == "immediate") {
+		// the failing node is a UDF node: a stop against its backlog aborts it before it can fail
 		class = "drained"
 	}
 	if hasAlert && class == "immediate" && r.Chance(1, 2) {
@@ -181,6 +182,10 @@ func genFork(r *kit.Rand) (chain, stop, class string, n int) {
 		class, stop, n = "drained", kit.Pick(r, []string{"task", "delete", "close"}), kit.Pick(r, []int{1, 50, 300})
 	case 1:
 		class, stop, n = "immediate", "close", kit.Pick(r, []int{50, 1200})
+		if hasFail {
+			// the failing node is a UDF node: a stop against its backlog aborts it before it fails (known finding)
+			class, n = "drained", 50
+		}
 	case 2:
 		class, stop, n = "early", kit.Pick(r, []string{"task", "close"}), 0
 	default:
